@@ -1,5 +1,6 @@
 import Prism.Proofs.C18
 import Prism.Proofs.C18Body
+import Prism.Proofs.C18BodyJpeg
 
 #print axioms Prism.C18_pulled_bound
 #print axioms Prism.C18_within_64k
@@ -8,3 +9,4 @@ import Prism.Proofs.C18Body
 #print axioms Prism.C18_auto_chain
 #print axioms Prism.C18_auto_within_64k
 #print axioms Prism.Png.C18_png_body_unread
+#print axioms Prism.Jpeg.C18_jpeg_body_unread
